@@ -212,6 +212,26 @@ def gen_case(rng, kind):
     return {'text': text, 'macros': macros, 'atoms': atoms, 'kind': kind}
 
 
+def long_macro(nbytes):
+    """a macro of exactly nbytes bytes made of many short commands"""
+    units = [['change', 'ia' + ESC], ['keys', 'l'], ['change', 'rZ'], ['keys', 'l'], ['change', 'x'], ['keys', 'l'],
+             ['change', 'ib' + ESC], ['change', 'rQ'], ['keys', 'l'], ['change', 'x'], ['change', 'dw'], ['keys', 'w']]
+    body = []
+    n = 0
+    i = 0
+    while nbytes - n >= 4:
+        u = units[i % len(units)]
+        if u[1] == 'dw' and i % 5:
+            u = ['keys', 'l']
+        body.append(u)
+        n += len(u[1])
+        i += 1
+    while n < nbytes:
+        body.append(['change', 'x'] if nbytes - n == 1 else ['keys', 'l'])
+        n += 1
+    return body
+
+
 def grid_cases():
     """every change command x prefixes x repeat counts 1..4 x contexts, `.` typed at the terminal"""
     out = []
@@ -250,6 +270,14 @@ def special_cases():
                 'atoms': [['keys', '1G'], ['change', 'x'], ['exec', 0, 'm']]})
     out.append({'text': list(BASE), 'macros': {'m': [['change', 'x'], ['exec', 0, 'n'], ['change', 'rQ']], 'n': [['keys', 'w'], ['change', 'dw']]}, 'kind': 'nested',
                 'atoms': [['keys', '2G'], ['exec', 2, 'm'], ['dot', 0]]})
+    # long registers: @r / N@r / @@ with 300 .. 1200 bytes, totals up to just below the 4096-byte queue
+    for nbytes, cnt in [(300, 0), (511, 0), (512, 0), (750, 0), (1200, 0), (300, 13), (511, 8), (512, 7), (750, 5), (1023, 4), (1200, 3)]:
+        body = long_macro(nbytes)
+        out.append({'text': list(BASE), 'macros': {'m': body}, 'kind': 'longreg', 'timeout': 90,
+                    'atoms': [['keys', '1G'], ['change', 'x'], ['exec', cnt, 'm'], ['keys', 'j0'], ['dot', 0]]})
+    for nbytes, cnt in [(512, 0), (750, 2), (1200, 2)]:
+        out.append({'text': list(BASE), 'macros': {'m': long_macro(nbytes)}, 'kind': 'longreg', 'timeout': 90,
+                    'atoms': [['keys', '2G'], ['exec', 0, 'm'], ['keys', 'j0'], ['exec', cnt, '@'], ['dot', 2]]})
     # long recorded command just below the recording buffer; many repeats within the queue
     long_txt = 'ab' * 2030
     out.append({'text': list(BASE), 'macros': {}, 'kind': 'capacity',
@@ -302,7 +330,8 @@ def pair(exe, case):
     q = Expander(case['macros']).atoms(case['atoms'])
     if not ok_bytes(p) or not ok_bytes(q):
         return None
-    return (p, q, run_keys(exe, case, p), run_keys(exe, case, q))
+    t = case.get('timeout', 20)
+    return (p, q, run_keys(exe, case, p, t), run_keys(exe, case, q, t))
 
 
 def model_request(case):
